@@ -121,7 +121,11 @@ def main(argv=None):
 
     # ---- classify violations against the committed known findings ------------------------------
     known = [k for k in load_known() if prop in k.get("properties", [k.get("property")])]
-    open_by_mech = {k["mechanism"]: k for k in known if k.get("status") == "open"}
+    open_by_mech = {}
+    for k in known:
+        if k.get("status") == "open":
+            for m in [k["mechanism"]] + list(k.get("also_mechanisms", [])):
+                open_by_mech[m] = k
     by_mech = {}
     for v in violations:
         by_mech.setdefault(v["mechanism"], []).append(v)
@@ -151,7 +155,8 @@ def main(argv=None):
         print("KNOWN-FINDING: property=%s %s [%s, %d observations]" % (
             prop, open_by_mech[mech]["what_fails"], mech, viol_counts[mech]))
     for k in known:
-        if k.get("status") == "open" and k["mechanism"] not in known_seen and not a.replay:
+        if k.get("status") == "open" and not a.replay and not any(
+                m in known_seen for m in [k["mechanism"]] + list(k.get("also_mechanisms", []))):
             print("INFO: open finding %s was not reproduced in this run (it suppresses nothing)"
                   % k["id"])
 
